@@ -60,7 +60,8 @@ func runPipeBLabelled(label string, bseed uint64) string {
 	}
 	var s *gocql.Session
 	sessReady := make(chan struct{})
-	var evWG sync.WaitGroup
+	var evMu sync.Mutex
+	evN, evStop := 0, false
 	var closedByEvent int32
 	gates := map[string]*gate{}
 	nTrig := 0
@@ -118,9 +119,18 @@ func runPipeBLabelled(label string, bseed uint64) string {
 				return
 			}
 			trig := f.trigger
-			evWG.Add(1)
+			evMu.Lock()
+			if evStop { // the scenario is being wound up: no more events, a held step is just answered
+				evMu.Unlock()
+				if f.kind == fHold {
+					go g.release(id, fOK)
+				}
+				return
+			}
+			evN++
+			evMu.Unlock()
 			go func() {
-				defer evWG.Done()
+				defer func() { evMu.Lock(); evN--; evMu.Unlock() }()
 				<-sessReady
 				if s == nil {
 					return
@@ -255,7 +265,10 @@ func runPipeBLabelled(label string, bseed uint64) string {
 	time.Sleep(2*ct + 60*time.Millisecond)
 	close(tstop)
 	twg.Wait()
-	evWG.Wait()
+	evMu.Lock()
+	evStop = true
+	evMu.Unlock()
+	waitUntil(func() bool { evMu.Lock(); defer evMu.Unlock(); return evN == 0 })
 	// quiescence: no pool is filling and every open socket is a connection of an open pool
 	orphans := 0
 	dl := time.Now().Add(wd())
